@@ -60,7 +60,9 @@ B(x) == Bulk(x)
 Seeds == {
     B(<<>>), NullBulk, B(<<97, 13, 10, 98>>), Null, Int(<<45, 55>>), Simple(<<79, 75>>), Error(<<69>>),
     Arr(<<B(ECHOb), B(<<120>>)>>), Arr(<<>>), Arr(<<Arr(<<Int(<<49>>)>>), Arr(<<>>)>>),
-    Arr(<<B(PINGb)>>)
+    Arr(<<B(PINGb)>>),
+    \* frames made of minimal-size (3-byte) elements
+    Arr(<<Null>>), Arr(<<Null, Null, Null>>), Arr(<<Arr(<<Null>>)>>), Arr(<<Int(<<55>>), Arr(<<Null, Null>>)>>)
 }
 SeedBytes == {Encode(v) : v \in Seeds} \cup {PINGb \o CRLF, <<101, 99, 104, 111, 32, 34, 97, 32, 98, 34>> \o CRLF}
 
@@ -101,7 +103,7 @@ LenMutants(b) ==
 \* nesting: d array headers around a leaf (complete) or around nothing (incomplete)
 RECURSIVE Nest(_, _)
 Nest(d, leaf) == IF d = 0 THEN leaf ELSE <<STAR, 49>> \o CRLF \o Nest(d - 1, leaf)
-NestMutants(u) == {Nest(d, leaf) : d \in {1, 2, 7, 8, 9, 10, 16, 31, 32, 33, 40}, leaf \in {<<>>, <<COLON, 49>> \o CRLF, <<STAR>>, <<97>> \o CRLF}}
+NestMutants(u) == {Nest(d, leaf) : d \in {1, 2, 7, 8, 9, 10, 16, 31, 32, 33, 40}, leaf \in {<<>>, <<COLON, 49>> \o CRLF, <<STAR>>, <<97>> \o CRLF, <<USCORE>> \o CRLF}}
 
 \* (the dummy parameter keeps TLC from evaluating the set at start-up of the runs that do not use it)
 Mutants(u) == UNION {ByteMutants(b) \cup LenMutants(b) : b \in SeedBytes} \cup NestMutants(u)
